@@ -568,7 +568,13 @@ theorem C16_view_partial (cls : PyCls) (s : Shape) (op : ViewOp) (r : Res)
           simp only at hnil; rw [hnil] at hl; simp at hl
           exact absurd (List.length_eq_zero_iff.1 hl.symm) ht
     · have hnr : ∀ t, op ≠ .reshape t := fun t e => hre ⟨t, e⟩
-      rw [viewOp_nonreshape cls [] op hnr] at h
+      by_cases hex : ∃ k, op = .expandDims k
+      · obtain ⟨k, rfl⟩ := hex
+        obtain ⟨hne, hc⟩ := viewOp_expandDims cls [] k r h
+        simp only [hq, if_true] at hc
+        exact ⟨fun hnil => absurd hnil hne, fun _ => by rw [hc]; exact uarray_not_quantity⟩
+      have hne : ∀ k, op ≠ .expandDims k := fun k e => hex ⟨k, e⟩
+      rw [viewOp_nonreshape cls [] op hnr hne] at h
       cases hv : viewShape [] op with
       | error e => simp [hv] at h
       | ok s' =>
@@ -589,10 +595,17 @@ theorem C16_view_partial (cls : PyCls) (s : Shape) (op : ViewOp) (r : Res)
         | error e => simp [hr] at h
         | ok s' => simp [hr] at h; subst h; exact ⟨rfl, s', by simp [viewShape, hr], rfl⟩
       · have hnr : ∀ t, op ≠ .reshape t := fun t e => hre ⟨t, e⟩
-        rw [viewOp_nonreshape cls s op hnr] at h
-        cases hv : viewShape s op with
-        | error e => simp [hv] at h
-        | ok s' => simp [hv] at h; subst h; exact ⟨rfl, s', rfl, rfl⟩
+        by_cases hex : ∃ k, op = .expandDims k
+        · obtain ⟨k, rfl⟩ := hex
+          simp only [viewOp, hq, Bool.false_eq_true, if_false] at h
+          cases hv : expandDims s k with
+          | error e => simp [hv] at h
+          | ok s' => simp [hv] at h; subst h; exact ⟨rfl, s', by simp [viewShape, hv], rfl⟩
+        · have hne : ∀ k, op ≠ .expandDims k := fun k e => hex ⟨k, e⟩
+          rw [viewOp_nonreshape cls s op hnr hne] at h
+          cases hv : viewShape s op with
+          | error e => simp [hv] at h
+          | ok s' => simp [hv] at h; subst h; exact ⟨rfl, s', rfl, rfl⟩
     obtain ⟨hc, s', hv, hrs⟩ := key
     have hne : s' ≠ [] := by
       apply viewShape_ne_nil s op s' hs _ hv
